@@ -65,12 +65,11 @@ struct Laws
 
 static void runSpace(const std::string &name, const vf::Args &a, vf::Report &rep)
 {
-    int pairLevel = a.thorough() ? 3 : 2, tripleLevel = a.thorough() ? 3 : 1;
+    int pairLevel = 3, tripleLevel = 3;  // (the quick tier used levels 2 / 1 until the cost was measured: level 3 everywhere costs seconds)
     // pairs
     {
         SpaceCfg c = makeSpace(name, pairLevel);
-        if (a.thorough())
-            densify(c, 600);
+        densify(c, a.thorough() ? 900 : 300);
         Pool P(c);
         Laws L{c, [&](const std::string &k, const std::string &w, const std::string &r) { rep.fail(k, w, r); }};
         size_t n = P.st.size();
@@ -115,8 +114,7 @@ static void runSpace(const std::string &name, const vf::Args &a, vf::Report &rep
     // triples
     {
         SpaceCfg c = makeSpace(name, tripleLevel);
-        if (a.thorough())
-            densify(c, 320);
+        densify(c, a.thorough() ? 440 : 160);
         if (c.space->isMetricSpace())
         {
             Pool P(c);
